@@ -324,6 +324,12 @@ let handle (req : sexp) : String.t =
         | "euler" -> gen_euler o ru (cs "explicit_euler") (cs order)
         | _ -> bad "mirror kind") in
       jobj ["status", jstr "ok"; "func", jopt jfunc f]
+  | L [A "mirrormissing"; A ru; A order; req] ->
+      (* req: ((name index) ...) in the order of the dict the implementation was given *)
+      let o = the_ode () in
+      let ru = (ru = "1") in
+      let rq = List.map (function L [A n; A i] -> (cs n, nat_of_int (int_of_string i)) | _ -> bad "req") (lst req) in
+      jobj ["status", jstr "ok"; "func", jopt jfunc (gen_missing_values o ru rq (cs order))]
   | L [A "validate"; A kind; A with_dt; A nret; tbl; body] ->
       (* kind: rhs | euler | named ; tbl: names for kind = named *)
       let o = the_ode () in
